@@ -89,7 +89,7 @@ pub struct RgCase {
 	pub crash: Option<(u16, u16)>,
 }
 
-pub fn rg_case(with_crash: bool) -> impl Strategy<Value = RgCase> {
+pub fn rg_case(with_crash: bool) -> BoxedStrategy<RgCase> {
 	let op = prop_oneof![
 		// mostly disjoint thirds of the colliding nodes, so that 33 distinct ones are referenced
 		// (and the chunk overflows) after a few insertions
@@ -100,7 +100,27 @@ pub fn rg_case(with_crash: bool) -> impl Strategy<Value = RgCase> {
 		1 => Just(RgOp::Drain),
 		1 => Just(RgOp::Reopen),
 	];
-	(proptest::collection::vec(op, 8..40), any::<u16>(), any::<u16>()).prop_map(move |(ops, a, b)| RgCase { ops, crash: if with_crash { Some((a, b)) } else { None } })
+	let free = (proptest::collection::vec(op, 8..40), any::<u16>(), any::<u16>()).prop_map(move |(ops, a, b)| RgCase { ops, crash: if with_crash { Some((a, b)) } else { None } });
+	if !with_crash {
+		return free.boxed()
+	}
+	// scripted regime: the growth is completed (old table dropped) but no log file has been
+	// reclaimed yet, a further transaction is logged and synced, and the crash hits while it is
+	// applied (or at the next reopen): recovery has to get through the records of the growth
+	let scripted = (proptest::collection::vec(0u8..5, 0..4), 0u8..36, 3u8..14, any::<u16>(), any::<bool>()).prop_map(|(extra, from, count, n, at_reopen)| {
+		let mut ops = vec![RgOp::Insert(0, 12), RgOp::Insert(12, 12), RgOp::Insert(24, 12)];
+		ops.extend([RgOp::Step(0), RgOp::Step(0), RgOp::Step(0), RgOp::Step(1), RgOp::Step(2)]);
+		// reindex batch(es) and the drop of the old table, applied
+		for _ in 0..3 {
+			ops.extend([RgOp::Step(4), RgOp::Step(1), RgOp::Step(2)]);
+		}
+		ops.extend(extra.into_iter().filter(|s| *s != 3).map(RgOp::Step));
+		ops.extend([RgOp::Insert(from, count), RgOp::Step(0), RgOp::Step(1)]);
+		ops.push(if at_reopen { RgOp::Reopen } else { RgOp::Step(2) });
+		// the crash selector addresses the last op
+		RgCase { ops, crash: Some((u16::MAX, n)) }
+	});
+	prop_oneof![2 => free, 1 => scripted].boxed()
 }
 
 fn to_op(base: &Base, it: &Interp, op: &RgOp, next_root: &mut u16) -> Option<Op> {
@@ -187,6 +207,8 @@ pub fn run_case(base: &Base, case: &RgCase, dir: &Path) -> CaseResult {
 	let mut txs: Vec<Vec<(u8, RChange)>> = Vec::new();
 	let crash_at = case.crash.map(|(a, _)| pick(a, case.ops.len()));
 	let mut crashed: Option<PathBuf> = None;
+	// transactions whose log record had been synced when the crash op started
+	let mut synced_at_crash = 0usize;
 	for (i, rop) in case.ops.iter().enumerate() {
 		let op = match to_op(base, &it, rop, &mut next_root) {
 			Some(o) => o,
@@ -197,6 +219,7 @@ pub fn run_case(base: &Base, case: &RgCase, dir: &Path) -> CaseResult {
 			// count the file operations of this op on a scratch copy? cheaper: arm with the selector
 			// modulo a generous bound; beyond the op's operations it is the boundary after the op
 			let n = case.crash.unwrap().1 as usize % 400;
+			synced_at_crash = it.stages.synced;
 			it.fault_armed = true;
 			set_faults(n);
 			let r = it.step(&op);
@@ -264,6 +287,9 @@ pub fn run_case(base: &Base, case: &RgCase, dir: &Path) -> CaseResult {
 				Some(p) => p,
 				None => fail!("recovered-state-not-a-prefix", "after a crash during reference-count growth the new trees match no prefix of the {} accepted transactions: {}", txs.len(), obs_brief(&obs)),
 			};
+			if p < synced_at_crash {
+				fail!("recovered-state-too-old", "after a crash during reference-count growth the new trees equal prefix {p} but {synced_at_crash} transactions had been synced before the crash ({} accepted)", txs.len())
+			}
 			// rebuild the model of that prefix (the models themselves are too large to keep per
 			// prefix): base model + the first p resolved transactions. Node ids are allocated in the
 			// same order; only base nodes are ever referenced by address afterwards.
